@@ -1316,6 +1316,31 @@ impl ArchiveBuilder {
                 sector_data.extend_from_slice(&compressed_sector);
             }
 
+            // No sector was compressed: per the MPQ format a file without the
+            // COMPRESS flag has no sector offset table (and no sector CRCs);
+            // its sectors are stored back to back.
+            if flags & BlockEntry::FLAG_COMPRESS == 0 {
+                flags &= !BlockEntry::FLAG_SECTOR_CRC;
+                let mut raw = file_data.to_vec();
+                if *encrypt {
+                    flags |= BlockEntry::FLAG_ENCRYPTED;
+                    if *use_fix_key {
+                        flags |= BlockEntry::FLAG_FIX_KEY;
+                    }
+                    let key = self.calculate_file_key(
+                        archive_name,
+                        *file_pos,
+                        file_data.len() as u32,
+                        flags,
+                    );
+                    for (i, sector) in raw.chunks_mut(*sector_size).enumerate() {
+                        self.encrypt_data(sector, key.wrapping_add(i as u32));
+                    }
+                }
+                writer.write_all(&raw)?;
+                return Ok((raw.len(), flags));
+            }
+
             // Set last offset
             sector_offsets[sector_count] = (data_start + sector_data.len()) as u32;
 
